@@ -428,15 +428,17 @@ class Check(PropertyCheck):
     lean_targets = ['RegionsVerif.Props.C17']
     namespaces = ['RegionsVerif.Props.C17']
     parallel = True
-    rule = ('every descriptor x a catalogue of ~95 values (0, negatives, NaN, +-inf, numpy scalars, bools, strings, None, '
+    rule = ('every descriptor x a catalogue of ~90 values (0, negatives, NaN, +-inf, numpy scalars, bools, strings, None, '
             'lists, 0-d/1-d/2-d arrays, Quantities of angular / non-angular / no unit incl. array-valued, scalar / 1-D / '
             '2-D PixCoord and SkyCoord, regions, dicts, RegionMeta, RegionVisual); all 23 region classes x every '
-            'constructor parameter x every catalogue value, others valid; the same by attribute assignment in runs '
-            'of 20; random histories (<= 20 ops) mixing valid and invalid assignments, deletions and dict-mutation '
-            'calls on region.meta / region.visual; RegionMeta / RegionVisual under every dict-mutation entry point with '
-            'valid, aliased and invalid keys; Regions under constructor/append/extend/insert/__setitem__/pop/reverse '
-            'and mutation of the list that was passed in. Non-trivial = at least one operation (or the constructor) '
-            'was accepted and at least one was rejected, or the history has an accepted out-of-the-ordinary value.')
+            'constructor parameter x every catalogue value, others valid (plus pairs of invalid arguments); the same by '
+            'attribute assignment in runs of 20; deletion of every attribute; random histories (<= 20 ops) mixing valid '
+            'and invalid assignments, deletions and dict-mutation calls on region.meta / region.visual; RegionMeta / '
+            'RegionVisual under every dict-mutation entry point (constructor, fromkeys, __setitem__, update in all call '
+            'forms, setdefault, |=, pop, popitem, clear, __delitem__) with valid, aliased and invalid keys; Regions under '
+            'constructor/append/extend/insert/__setitem__/pop/reverse and mutation of the list that was passed in; '
+            'RegionMask data/box shape agreement. Every case counts as non-trivial: each is a distinct constructor '
+            'call or history.')
     assumptions = [
         'isinstance, np.isscalar, .isscalar, .ndim, len, bool(), unit.physical_type, and the Python/numpy/astropy '
         'comparison operators are parameters of the model (fields of Val / pyTruth / pyLtConst / pyLeZero), observed '
@@ -444,6 +446,9 @@ class Check(PropertyCheck):
         'PixCoord.__add__ (polygon constructor) is a parameter: its result is supplied with the arguments',
         'sky sizes are compared in degrees; generated sky sizes differ by > 1e-9 relative or are the same object',
         'compound regions: only region1 / region2 / operator are modelled (their meta / visual have no descriptor)',
+        'theorems assume well-formed library values as inputs: a RegionMeta/RegionVisual VALUE has vocabulary keys '
+        '(the Meta class invariant proved by meta_entry_points / meta_ctor_keysOk), the Regions argument of extend '
+        'is a list of regions (regions_list_typed)',
     ]
     validated_only = [
         'that the abstraction Val captures every observation the validators make of a value (checked by running the '
@@ -451,6 +456,10 @@ class Check(PropertyCheck):
         'constructor plans (order of stores and checks in each __init__) mirror the code: differential run only',
         'which dict methods mutate in place (the list is compared with dir(dict) of the running interpreter)',
         'a NaN / infinite rotation angle or coordinate is accepted; the property text restricts only sizes to finite values',
+        'annulus inner < outer after ASSIGNMENT is not a theorem: refuted (F14, open known finding); proved for '
+        'constructors and for every history without an accepted inner >= outer assignment',
+        'RegionBoundingBox constructor checks are covered by C19 (model Impl.BBox.mkChecked), here only the RegionMask '
+        'shape agreement',
     ]
 
     # ---------------------------------------------------------------- tie T: tables
